@@ -45,7 +45,7 @@ def generate(master, index, tier):
         "rawbuf": rng.choice((1, 2, 8, 64, 8192)),
         "items": items,
         "driver": rng.choice(("iterate", "iterate", "read")),
-        "opts": {"quitonerror": rng.choice((0, 1, 1, 2)), "parsed": rng.random() < 0.8, "labelmsm": rng.choice((1, 2)), "handler": rng.random() < 0.5},
+        "opts": {"quitonerror": rng.choice((0, 1, 1, 2)), "parsed": rng.random() < 0.8, "labelmsm": rng.choice((1, 2)), "handler": rng.choice((False, False, "method", "function", "collector", "falsy"))},
         "sched": {"seed": rng.getrandbits(48), "seg": rng.choice(("full", "byte", "small", "random", "mixed"))},
     }
 
@@ -65,10 +65,7 @@ def run_reader(scn, data, validate=1, kind=None, opts=None):
         decider = RngDecider(R.random.Random(sch["seed"]), {"seg": "full" if kind == "serial" else sch["seg"]})
     budget = 8 * len(data) + 600
     st = W.Stream(kind, data, decider, budget, rawbuf=scn.get("rawbuf", 64))
-    calls = []
-    kw = {}
-    if o.get("handler"):
-        kw["errorhandler"] = calls.append
+    kw, calls = W.make_handler(o.get("handler"))
     try:
         rd = RTCMReader(st.obj, validate=validate, quitonerror=o["quitonerror"], labelmsm=o.get("labelmsm", 1), parsed=o.get("parsed", True), bufsize=scn.get("bufsize", 4096), **kw)
         events = W.drive(rd, st, scn.get("driver", "iterate"), 0)
